@@ -386,12 +386,14 @@ class InterpAlgorithmFixed(object):
             Extrapolation flag, -1 if the bracket is below the first table element, 1 if the
             bracket is above the last table element, 0 for normal interpolation.
         """
+        if self.vectorized(x):
+            # Index arrays are not cached because the scalar search expects integers in last_index.
+            return [np.searchsorted(self.grid[j], x[..., j], side='left') - 1
+                    for j in range(self.dim)], None
+
         for j in range(self.dim):
-            if self.vectorized(x):
-                self.last_index[j] = np.searchsorted(self.grid[j], x[..., j], side='left') - 1
-            else:
-                self.last_index[j], _ = self._bracket_dim(self.grid[j], x[j],
-                                                          self.last_index[j])
+            self.last_index[j], _ = self._bracket_dim(self.grid[j], x[j],
+                                                      self.last_index[j])
 
         return self.last_index, None
 
